@@ -3,23 +3,23 @@ import importlib
 
 # property -> list of (rule module, configs it needs in quick tier)
 PROPERTY_RULES = {
-    "C01": ["r_a10", "r_a9", "r_a8", "r_a2", "r_o3", "r_a12", "r_a13"],
-    "C02": ["r_a6", "r_a4", "r_a8", "r_a2", "r_o3", "r_e1", "r_b1", "r_a13"],
-    "C03": ["r_a2", "r_a3"],
+    "C01": ["r_a10", "r_a9", "r_a8", "r_a2", "r_o3", "r_a12", "r_a13", "r_a4"],
+    "C02": ["r_a6", "r_a4", "r_a8", "r_a2", "r_o3", "r_e1", "r_b1", "r_a13", "r_a14"],
+    "C03": ["r_a2", "r_a3", "r_a8", "r_a14"],
     "C04": ["r_a8", "r_e1", "r_a6"],
     "C05": ["r_b1", "r_o3", "r_a2", "r_a12"],
     "C06": ["r_b1", "r_o3", "r_a2"],
-    "C07": ["r_a12", "r_a13"],
-    "C08": ["r_a11", "r_o3", "r_a2", "r_a4"],
+    "C07": ["r_a12", "r_a13", "r_a2"],
+    "C08": ["r_a11", "r_o3", "r_a2", "r_a4", "r_a8", "r_a12", "r_e2"],
     "C09": ["r_c4", "r_c3", "r_c1", "r_c5", "r_c7"],
-    "C10": ["r_c2", "r_c1", "r_e1"],
-    "C11": ["r_c2", "r_c1", "r_a6", "r_c5", "r_c4", "r_e1"],
+    "C10": ["r_c2", "r_c1", "r_e1", "r_c5", "r_c7"],
+    "C11": ["r_c2", "r_c1", "r_a6", "r_c5", "r_c4", "r_e1", "r_a8", "r_a9"],
     "C12": ["r_c4", "r_e1"],
-    "C13": ["r_e4", "r_a6", "r_c3", "r_e1"],
+    "C13": ["r_e4", "r_a6", "r_c3", "r_e1", "r_a13"],
     "C14": ["r_d1"],
     "C15": ["r_d2", "r_d3"],
     "C16": ["r_e1", "r_e2"],
-    "C17": ["r_c6", "r_a3", "r_c5"],
+    "C17": ["r_c6", "r_a3", "r_c5", "r_a14"],
 }
 
 LEVEL = {"C14": "proof"}
@@ -27,13 +27,14 @@ LEVEL = {"C14": "proof"}
 CLAUSES = {
     "C17": "no integer reported by a safe user trait (remaining, chunks_vectored count, size_hint, Cursor::position) reaches an unsafe extent (copy length, "
            "raw-slice length, pointer offset, set_len, advance_mut, array cast, handle extent fields) unsanitised, interprocedurally; copy loops use real slice "
-           "lengths; from_owner calls as_ref once, after boxing, and unwinds into Drop",
+           "lengths; from_owner calls as_ref once, after boxing, and unwinds into Drop; unchecked indexing only under a test of the indexed slice's own length; "
+           "no user code runs while the destructor of a storage owner is suppressed (ManuallyDrop windows)",
     "C15": "Debug: the sets of byte values reaching each write partition 0..=255 and every branch's template decodes, by the byte-string-literal grammar, "
            "to exactly the guarded byte, framed by b\" and \"; hex: one {:02x}/{:02X} per byte; serde: each entry point passes its whole argument through "
            "content-preserving conversions, visit_seq keeps every element in order",
     "C01": "no API of Bytes can write its bytes; every place where the crate moves bytes or re-bases a view does it in the only correct order and with the "
            "right length/offset (copy-back before shrinking, offset re-applied, bytes before pointer); writes into shared storage are dominated by a "
-           "uniqueness test; no handle is disposed early or twice",
+           "uniqueness test; no handle is disposed early or twice; slices/conversions rebuild (ptr, len) / Vec lengths from the view's own extent",
     "C04": "every write to BytesMut.{ptr,len,cap} is justified (bounded by the allocation, paired with its companions, bytes moved before the pointer, "
            "non-overlap guard before copy_nonoverlapping); split halves use one cut operand; merge needs all four adjacency conjuncts; Clone never shares; "
            "the reservation helper returns false only on paths without any state write and true only through a justified cap write; request arithmetic cannot wrap",
@@ -41,31 +42,35 @@ CLAUSES = {
            "edges; clone returns the (ptr, len) it was given; slice/slice_ref re-base by exactly the range start; empty split_off/split_to "
            "results are built at self.ptr + at / self.ptr",
     "C08": "is_unique slot functions return constant false exactly for families whose into_mut can never hand the memory over, `count == 1` (true on the "
-           "unshared branch) otherwise; try_into_mut is exactly is_unique ? Ok(into) : Err(self); every take-over re-validates uniqueness with Acquire",
+           "unshared branch) otherwise; try_into_mut is exactly is_unique ? Ok(into) : Err(self); every take-over re-validates uniqueness with Acquire; the reclaim helper's contract (A8), no copy on the unique conversion path (A12), parity siblings (E2)",
     "C03": "on every CFG path of every vtable/drop/conversion/duplication function the handle's reference is disposed exactly once (minted exactly once "
            "for clone); initial counts match the number of handles; consuming slots are called only on ManuallyDrop'd handles; from_owner boxes before "
-           "as_ref, calls it once, unwinds into Drop",
+           "as_ref, calls it once, unwinds into Drop; handles are merged only when they share one control block; no user code in ManuallyDrop windows",
     "C02": "structural preconditions of the unsafe code: every safe caller establishes the stated precondition of each unsafe helper in release code; "
            "raw slices have an approved (ptr,len) shape; raw writes are bounded by the real destination length; no wrap-around feeds an extent; "
            "refcount overflow aborts",
     "C13": "in every safe &mut-self method with integer/range/slice arguments no state write can reach an argument-dependent panic (panic strictly before "
-           "mutation); argument checks dominate the unchecked operations they protect in release builds; overflowing requests cannot wrap silently",
+           "mutation); argument checks dominate the unchecked operations they protect in release builds; overflowing requests cannot wrap silently; "
+           "Bytes::slice produces every result (also the empty one) only after both range checks",
     "C09": "Chain touches its second half only on paths where the first is exhausted or fully accounted for (incl. chunks_vectored); "
            "Take truncates by min(inner, limit) and pairs every inner advance with limit -= same operand; the five leaf Bufs, the inherited defaults "
            "and IntoIter: remaining()/chunk() cut from one value, advance moves the cursor by exactly its argument, VecDeque lists front before back, "
            "IntoIter yields chunk()[0] and advances by 1 exactly while bytes remain",
     "C12": "Take/Limit: remaining = min(inner, limit), chunk truncated by the same min, guarded paired bookkeeping; Chain order for both traits; "
-           "Reader/Writer transfer exactly min(available, requested), return it, never construct Err; accessors are plain field accessors",
+           "Reader/Writer transfer exactly min(available, requested), return it, never construct Err; accessors are plain field accessors, constructors store "
+           "their arguments unchanged; Take::chunks_vectored bounds the inner count by dst.len()",
     "C05": "free/take-over decisions are taken on the result of the atomic RMW itself (fetch_sub == 1; CAS 1->0; publishing CAS of a fresh control block "
            "whose loser uses the winner's value); every take-over is dominated by a uniqueness test",
     "C06": "every atomic site has at least the ordering its role requires (decrement >= Release; Acquire before free; Acquire uniqueness test before "
            "take-over; publishing CAS Release/Acquire; dereferenced loads of a mutable data pointer >= Acquire) and every take-over event is dominated "
            "by such a test locally or at all call sites",
     "C10": "every typed getter uses the conversion/type/byte order/width its name promises, get_X and try_get_X decode identically, "
-           "error fields and cursor movement use the value width; no profile-dependent arithmetic on caller-controlled integers in the decoders",
-    "C11": "every typed putter uses the conversion/type/byte order/width its name promises (be = tail, le = head slicing of the 8-byte encoding)",
+           "error fields and cursor movement use the value width; no profile-dependent arithmetic on caller-controlled integers in the decoders; "
+           "the chunk-gathering slow path loops until the destination is full; the leaf cursors' remaining()/chunk() agree",
+    "C11": "every typed putter uses the conversion/type/byte order/width its name promises (be = tail, le = head slicing of the 8-byte encoding); copy loops "
+           "move min(real lengths) and stop only on exhaustion; BytesMut's growth path moves the bytes in the right direction before re-basing",
     "C16": "no profile-dependent arithmetic (overflow/shift asserts, explicit wrapping ops) on caller-controlled integers anywhere in the crate; the "
-           "even/odd promotable vtables are slot-wise isomorphic modulo unmasking and the parity dispatch is consistent; fact tables agree across the "
+           "even/odd promotable vtables are slot-wise isomorphic modulo unmasking, the parity dispatch is consistent and vtable identity tests cover both parities; fact tables agree across the "
            "feature/atomic configurations (thorough tier)",
     "C14": "all comparison/hash/borrow impls delegate to the [u8] impl over content-preserving views with operands in the right order",
 }
